@@ -1123,7 +1123,7 @@ impl<'a> Visitor<'a> {
 
                 let span = query.span;
 
-                let query_toks = Lexer::new_from_string(&resolved, span);
+                let query_toks = Lexer::new_from_string(&resolved, span, self.map);
 
                 AtRootQueryParser::new(query_toks).parse()?
             }
@@ -1283,7 +1283,7 @@ impl<'a> Visitor<'a> {
         allows_placeholder: bool,
         span: Span,
     ) -> SassResult<SelectorList> {
-        let sel_toks = Lexer::new_from_string(selector_text, span);
+        let sel_toks = Lexer::new_from_string(selector_text, span, self.map);
 
         SelectorParser::new(sel_toks, allows_parent, allows_placeholder, span).parse()
     }
@@ -1371,7 +1371,7 @@ impl<'a> Visitor<'a> {
     ) -> SassResult<Vec<CssMediaQuery>> {
         let resolved = self.perform_interpolation(queries, true)?;
 
-        CssMediaQuery::parse_list(&resolved, span)
+        CssMediaQuery::parse_list(&resolved, span, self.map)
     }
 
     fn visit_media_rule(&mut self, media_rule: AstMedia) -> SassResult<Option<Value>> {
@@ -2916,7 +2916,7 @@ impl<'a> Visitor<'a> {
 
         if self.flags.in_keyframes() {
             let span = ruleset.selector_span;
-            let sel_toks = Lexer::new_from_string(&selector_text, span);
+            let sel_toks = Lexer::new_from_string(&selector_text, span, self.map);
             let parsed_selector =
                 KeyframesSelectorParser::new(sel_toks).parse_keyframes_selector()?;
 
